@@ -173,7 +173,7 @@ class Builder():
             except (FileNotFoundError, OSError) as e:
                 #OSError(22) is "Invalid argument"
                 #OSError(36) is "File name too long"
-                if type(e) is OSError and e.errno not in [22, 36]:
+                if not isinstance(e, FileNotFoundError) and (type(e) is not OSError or e.errno not in [22, 36]): # e.g. a directory, a missing permission
                     raise
                 if raw_yaml is not None:
                     raise
